@@ -500,6 +500,9 @@ func runC19(p *Prog, r *Report) {
 		}
 		r.End()
 	}
+	if want("C19.7") {
+		ruleVersionGetGuards(p, r, "C19.7")
+	}
 	if want("C19.6") {
 		ruleTableOptions(p, r, "C19.6")
 	}
